@@ -155,7 +155,7 @@ func specProbeID(u *udpDriver, ttl uint8) uint16 {
 //@ requires[pre.nonnil]   u != nil && u.sentProbes != nil
 
 //@ func (*udpDriver).SendProbe
-//@ safety C06 C05 C14 C11
+//@ safety C06 C05 C14 C11 C19
 //@ requires[pre.nonnil]   u != nil && u.sink != nil && u.sentProbes != nil && u.config != nil && u.config.buffer != nil
 //@ requires[C10.send.open]  selb(isOpen, ref(u.sink))
 //@ requires[pre.past]     forall(k, 0, 65536, u.sentProbes[k].sendTime <= now())
